@@ -126,3 +126,10 @@ impl FeoxStore {
         unimplemented!()
     }
 }
+
+// X += 1 on a per-entry counter   (rule R-count)
+pub fn count_up_usize(x: usize) -> (r: usize)
+    ensures x < usize::MAX ==> r == x + 1,
+{
+    x.wrapping_add(1)
+}
